@@ -173,7 +173,7 @@ pub fn run(a: &Args) {
         return;
     }
     for p in b64() {
-        tss_desc_case(&mut r, p);
+        guarded(&mut r, "C15|tss_segment|unexpected-panic", || format!("tssdesc {:#x}", p), |r| tss_desc_case(r, p));
     }
     // real statics
     for _ in 0..4 {
@@ -189,7 +189,7 @@ pub fn run(a: &Args) {
             _ => r.viol("C15|tss_segment(&'static)|not-a-system-descriptor", "tssstatic", ""),
         }
     }
-    presets(&mut r);
+    guarded(&mut r, "C15|presets|unexpected-panic", || "preset".into(), |r| presets(r));
     let mut bases: Vec<u64> = vec![0, u64::MAX];
     for b in 0..64 {
         bases.push(1u64 << b);
@@ -197,11 +197,11 @@ pub fn run(a: &Args) {
     }
     for &b in &bases {
         for dpl in 0..4u8 {
-            dpl_case(&mut r, b, dpl, false);
-            dpl_case(&mut r, b, dpl, true);
+            guarded(&mut r, "C15|Descriptor::dpl|unexpected-panic", || format!("dpl {:#x} {} false", b, dpl), |r| dpl_case(r, b, dpl, false));
+            guarded(&mut r, "C15|Descriptor::dpl|unexpected-panic", || format!("dpl {:#x} {} true", b, dpl), |r| dpl_case(r, b, dpl, true));
         }
     }
-    layouts(&mut r);
+    guarded(&mut r, "C15|layouts|unexpected-panic", || "layout".into(), |r| layouts(r));
     r.nontrivial = r.evals;
     r.sample("tssdesc 0xffff800001000000 (base split over bits 16-39, 56-63 and the high dword)".into());
     r.sample("dpl 0xffffffffffffffff 2 true".into());
